@@ -14,6 +14,16 @@ def page_scenarios(tier, seed):
     rng = random.Random(seed * 7919 + 18)
     n_sc, budget = (4, 1300) if tier == "quick" else (24, 3200)
     out = []
+    # fixed shapes: the node table growing *in place* (it is the last structure in the file) across one and two page
+    # boundaries, on a fresh file and after a relocation, each followed by allocations of other structures
+    N = lambda n, **kw: dict({"op": "nodes", "n": n, "label": "A"}, **kw)
+    C, R = {"op": "compact"}, {"op": "reopen"}
+    E = lambda n: {"op": "edges", "n": n, "from": 0, "stride": 7}
+    O = lambda st, *probes: dict(st, observe=True, probes=list(probes) or [1])
+    out.append({"id": "inplace/fresh-one-boundary", "steps": [N(600), E(200), O(C, 1, 600), N(100), E(50), C, O(R, 1, 700)]})
+    out.append({"id": "inplace/after-relocation", "steps": [N(300), E(100), C, N(800), E(300), O(C, 1, 1100), N(100), C, O(R, 1, 1200)]})
+    out.append({"id": "inplace/two-boundaries", "steps": [N(100), C, N(1100), E(200), O(C, 1, 1200), {"op": "index", "label": "A", "field": "p"},
+                                                          N(600), {"op": "blobs", "n": 5, "from": 0, "size": 9000}, C, O(R, 1, 1800)]})
     for k in range(n_sc):
         steps, total, since_obs = [], 0, 0
         # every scenario starts by putting other structures right behind the node table's first page
